@@ -216,6 +216,8 @@ def extract_unit(u: Unit, rewrite_log: list) -> List[Piece]:
             bo = body_open(m, a)
             end = match_brace(m, bo) + 1
         text = _apply_rewrites(src[a:end], u.rewrites, u.name, rewrite_log)
+        # restricted visibility on the item header becomes `pub` (single-module output)
+        text = re.sub(r"^pub(\([^)]*\))?\s+", "", text)
         if u.attrs:
             pieces.append(Piece(u.attrs + "\n", "spec", label=lab + ":attrs"))
         pieces.append(Piece(text + "\n", "src", u.file, line_of(src, a)))
@@ -363,6 +365,13 @@ def _splice_body(u: Unit, body: str, file: str, first_line: int) -> List[Piece]:
     if len(u.loops) and False:
         pass
     for where, stmt, text in u.hints:
+        if where == "after_loop":
+            ordinal = int(stmt)
+            if ordinal < 1 or ordinal > len(heads):
+                raise LostAnchor("%s: loop #%d not found for after_loop hint" % (u.name, ordinal))
+            close = match_brace(m, heads[ordinal - 1][1])
+            inserts.append((close + 1, "\n" + text.rstrip() + "\n", "%s:hint-after-loop%d" % (u.name, ordinal)))
+            continue
         k = find_unique(body, stmt, "%s (hint anchor)" % u.name)
         if where == "before":
             off = body.rfind("\n", 0, k) + 1
@@ -385,6 +394,24 @@ def _splice_body(u: Unit, body: str, file: str, first_line: int) -> List[Piece]:
     return pieces
 
 
+_PRIV_RE = re.compile(r"(?m)^(\s*)pub(\([^)]*\))?\s+((open |closed |uninterp |broadcast )*(spec fn|proof fn|fn|struct|enum|trait|type|const|mod)\b)")
+
+
+def _privatize(txt: str) -> str:
+    """Everything lives in one module of one file: item-level visibility is dropped so that spec
+    functions may freely mention the private fields of extracted types (`open`/`closed` are
+    meaningless for private spec fns and dropped too)."""
+    def rep(m):
+        # a line carrying the marker `keep-vis` keeps its visibility (needed for items used in
+        # impls of public std traits such as core::ops::Index)
+        eol = txt.find("\n", m.start())
+        if "keep-vis" in txt[m.start():eol if eol >= 0 else len(txt)]:
+            return m.group(0)
+        item = re.sub(r"\b(open|closed) ", "", m.group(3))
+        return m.group(1) + item
+    return _PRIV_RE.sub(rep, txt)
+
+
 def assemble(prelude_files: List[str], units: List[Unit], out_path: str, extra_tail: str = ""):
     """Write the Verus file; return (linemap, rewrite_log, n_loops_with_inv).
     linemap[i] (1-based output line i) = dict(kind=..., file=..., line=..., label=...)."""
@@ -392,7 +419,7 @@ def assemble(prelude_files: List[str], units: List[Unit], out_path: str, extra_t
     pieces: List[Piece] = []
     pieces.append(Piece("#![allow(unused_imports, unused_variables, unused_mut, dead_code, unused_assignments, non_snake_case, unreachable_code, unused_parens)]\nuse vstd::prelude::*;\nverus! {\n", "glue"))
     for pf in prelude_files:
-        txt = open(pf, encoding="utf-8").read()
+        txt = _privatize(open(pf, encoding="utf-8").read())
         pieces.append(Piece("// ---- prelude: %s ----\n" % os.path.basename(pf), "glue"))
         pieces.append(Piece(txt if txt.endswith("\n") else txt + "\n", "prelude", file=pf, line=1))
     for u in units:
